@@ -203,6 +203,12 @@ func drawTunCfg(e *Env) tunCfg {
 		if (shape == 3 || shape == 4) && e.Choose("cfg.tshort", 3) == 0 {
 			c.T = c.R / 2 // a response timeout below the resend interval: no repetition, Send gives up after T
 			c.H = 4 * c.R
+			if e.Choose("cfg.tshortlong", 2) == 0 {
+				// ... the same with intervals of seconds, or with the two exactly equal
+				c.R = []time.Duration{time.Second, 2 * time.Second, 3 * time.Second}[e.Choose("cfg.rlong", 3)]
+				c.T = []time.Duration{c.R, c.R / 2, c.R - 100*time.Millisecond}[e.Choose("cfg.tlong", 3)]
+				c.H = 4 * c.R
+			}
 		}
 	case "C04", "C17":
 		c.Senders = []int{0, 1, 1, 3}[e.Choose("cfg.senders2", 4)] // (application traffic shares the socket with the acknowledgements)
@@ -357,8 +363,19 @@ func idMessage(id int) cemi.Message {
 		Control2:    0xe0,
 		Source:      0x1105,
 		Destination: uint16(id),
-		Data:        &cemi.AppData{Command: cemi.GroupValueWrite, Data: []byte{0, byte(id >> 8), byte(id)}},
+		// (the transport layer's own numbering varies with the id, its highest number included: the
+		// gateway compares the whole frame with what was meant - see idReqCEMI)
+		Data: &cemi.AppData{Numbered: id&1 == 1, SeqNumber: uint8(id+14) & 15, Command: cemi.GroupValueWrite, Data: []byte{0, byte(id >> 8), byte(id)}},
 	}}
+}
+
+// idReqCEMI is the L_Data.req frame idMessage(id) stands for, put together octet by octet.
+func idReqCEMI(id int) []byte {
+	b := mkLData(0x11, 0xbc, 0xe0, 0x1105, uint16(id), 2, []byte{0, byte(id >> 8), byte(id)}, nil)
+	if id&1 == 1 {
+		b[9] |= 0x40 | (uint8(id+14)&15)<<2
+	}
+	return b
 }
 
 // msgID extracts the telegram id from a message read from Inbound (-1: not one of ours).
@@ -550,6 +567,15 @@ func (r *tunRun) startWorkload() {
 					s.SleepFor(time.Duration(e.Choose("wl.ingap", 4)) * c.InboundGap)
 				} else {
 					simrt.Yield("bus")
+				}
+				if (e.Spec.Prop == "C04" || e.Spec.Prop == "C17") && e.Choose("wl.busjunk", 8) == 0 {
+					// something that is framed like a tunnelling request of this connection, with the number
+					// the next telegram will carry, but whose L_Data frame breaks off: it is no request at
+					// all - nothing is delivered, acknowledged or counted for it
+					if cur := r.gw.Cur(); cur != nil {
+						r.gw.SendRaw(mkFrame(svcTunnelReq, []byte{4, cur.Channel, cur.OutSeq, 0, 0x29, 0x00, 0xbc, 0xe0, 0x11}))
+						e.Fault("undecodable-tunnelling-request")
+					}
 				}
 				r.gw.Push(r.newID())
 			}
